@@ -92,6 +92,14 @@ theorem normalize_dup_last_wins (pre post : List (Str × JVal)) (k : Str) (v : J
 example : normalize (.obj ([(bs "a", .int 1)] ++ (bs "a", .int 2) :: [(bs "b", .null)]))
     = .ok (.obj [(bs "a", .int 2), (bs "b", .null)]) := by rfl
 
+/-- Said directly: an entry whose key occurs again later in the text can be deleted from the input
+without changing the result (provided its own value is representable; serde_json drops it before
+ruma sees it in any case, see `normalize_after_serde`). -/
+theorem normalize_shadowed_duplicate_irrelevant (pre rest : List (Str × JVal)) (k : Str) (v0 c0 : JVal)
+    (h0 : normalize v0 = .ok c0) (hk : k ∈ Obj.keys rest) :
+    normalize (.obj (pre ++ (k, v0) :: rest)) = normalize (.obj (pre ++ rest)) :=
+  normalize_drop_shadowed pre rest k v0 c0 h0 hk
+
 /-- A key that does not occur in the input does not occur in the output. -/
 theorem normalize_no_new_keys (kvs : List (Str × JVal)) (o : Obj) (k : Str)
     (hk : k ∉ Obj.keys kvs) (h : normalize (.obj kvs) = .ok (.obj o)) : Obj.get o k = none := by
@@ -100,6 +108,12 @@ theorem normalize_no_new_keys (kvs : List (Str × JVal)) (o : Obj) (k : Str)
   subst h2
   rw [get_ofList]
   exact (normalizeO_getLast _ l k h1).2 (getLast_none_of_not_mem kvs k hk)
+
+/-- Together with sortedness these two facts determine the canonical object completely: two
+strictly sorted objects with the same lookups are the same object. -/
+theorem canonical_object_determined_by_lookups (o o' : Obj) (h : Obj.Sorted o) (h' : Obj.Sorted o')
+    (hl : ∀ k, Obj.get o k = Obj.get o' k) : o = o' :=
+  sorted_ext o o' h h' hl
 
 /-- serde_json's own duplicate handling in front (`serdeValue`: a later duplicate replaces) changes
 nothing whenever the conversion of the raw entries succeeds. -/
@@ -186,6 +200,10 @@ points) — for all code points, astral ones included. -/
 theorem utf8_lex_iff_codepoint_lex (a b : List Nat) : utf8Encode a < utf8Encode b ↔ a < b :=
   utf8Encode_lt_iff a b
 
+/-- Different code point sequences have different UTF-8 encodings (so distinct keys stay distinct). -/
+theorem utf8_injective (a b : List Nat) (h : utf8Encode a = utf8Encode b) : a = b :=
+  utf8Encode_inj a b h
+
 /-- UTF-16 code unit order is a different order (so an implementation sorting by UTF-16 would not
 be canonical): U+FFFF < U+10000 as code points and in UTF-8, but not in UTF-16. -/
 example : [0xFFFF] < [0x10000] ∧ utf8Encode [0xFFFF] < utf8Encode [0x10000] ∧
@@ -209,6 +227,13 @@ theorem canonical_of_spec_value (v : CVal) (h : v.WF) :
     (normalize v.toJVal).map encode = .ok (canonicalBytes v) ∧ IsCanonicalJson (canonicalBytes v) := by
   rw [normalize_idempotent _ (spec_value_is_canonical v h)]
   exact ⟨congrArg _ (encode_eq_spec v), v, h, rfl⟩
+
+/-- Any reordering, at any depth, of the in-memory form of a well-formed specification value is
+converted and serialised to the specification's bytes of that value. -/
+theorem canonical_of_any_reordering (v : CVal) (h : v.WF) (w : JVal) (hs : Shuffled v.toJVal w) :
+    (normalize w).map encode = .ok (canonicalBytes v) := by
+  rw [← normalize_perm_deep _ _ hs]
+  exact (canonical_of_spec_value v h).1
 
 example : (CVal.obj [([0xFFFF], .int 2), ([0x10000], .str [0x1F600, 10])]).WF := by
   refine ⟨by unfold KeysAscending; decide, ?_, ?_, ?_, ?_, trivial⟩
@@ -248,7 +273,9 @@ example : IsCanonical (.obj [(bs "a", .arr [.int (-5), .str [34, 10, 240, 159, 1
 #print axioms normalizeMap_perm'
 #print axioms canonical_bytes_order_independent
 #print axioms normalize_dup_last_wins
+#print axioms normalize_shadowed_duplicate_irrelevant
 #print axioms normalize_no_new_keys
+#print axioms canonical_object_determined_by_lookups
 #print axioms normalize_after_serde
 #print axioms normalize_int_iff
 #print axioms normalize_float_rejected
@@ -261,9 +288,11 @@ example : IsCanonical (.obj [(bs "a", .arr [.int (-5), .str [34, 10, 240, 159, 1
 #print axioms encode_no_whitespace
 #print axioms encode_no_control_bytes
 #print axioms utf8_lex_iff_codepoint_lex
+#print axioms utf8_injective
 #print axioms spec_value_is_canonical
 #print axioms encode_eq_spec
 #print axioms canonical_of_spec_value
+#print axioms canonical_of_any_reordering
 #print axioms decode_encode
 #print axioms encode_injective
 #print axioms decode_encode_normalize
